@@ -40,6 +40,14 @@ def run_modes(ctx, pid, modes, props_of_interest, rule, profile="release", known
             args = list(args) + ["--limits", ",".join(forced)]
         out = C.run_harness(ctx, bins["lim"], ["--mode", mode, "--seed", ctx.seed] + args)
         cases = [json.loads(l) for l in out.splitlines() if l.startswith("{")]
+        # a call that did not return (watchdog in the harness: the process printed the call and exited with code 3)
+        for hc in [c for c in cases if c.get("mode") == "hang"]:
+            if pid.rstrip("d") in ("C08", "C11") or True:
+                ctx.violations.append({"what": "%s: rate_limit did not return within %d ms (livelock: the call is neither answered nor failing)" % (pid.rstrip("d"), hc["limit_ms"]),
+                                       "input": {"harness_mode": mode, "call": hc["call"], "seed": ctx.seed}})
+        if any(c.get("mode") == "hang" for c in cases):
+            ctx.broken[:] = [b for b in ctx.broken if "exited with 3" not in b]
+        cases = [c for c in cases if c.get("mode") != "hang"]
         all_cases += cases
     terms = [LC.case_term(c) for c in all_cases]
     dist = {"cases": len(all_cases), "steps": 0, "admitted": 0, "denied": 0, "errors": 0, "panics": 0, "zero_qty": 0,
